@@ -39,7 +39,8 @@ UTypes ==
             pv    |-> FD(Named("P"), <<>>),                \* the same node: as a Go struct VALUE here (reflection strategy),
             pp    |-> FD(Named("Named"), <<>>),            \* as a pointer to that struct here
             ps    |-> FD(ListOf(Named("Named")), <<>>),
-            obj   |-> FD(S, <<AD("in", Named("In")), AD("l", ListOf(S)), AD("ins", ListOf(Named("In"))), AD("ll", ListOf(ListOf(S)))>>) ] ],
+            obj   |-> FD(S, <<AD("in", Named("In")), AD("l", ListOf(S)), AD("ins", ListOf(Named("In"))), AD("ll", ListOf(ListOf(S)))>>),
+            ids   |-> FD(S, <<AD("v", ListOf(Named("ID"))), AD("w", Named("ID"))>>) ] ],    \* (a number written for an ID is that ID as a string)
     In |->
       [ kind |-> "INPUT_OBJECT", ifaces |-> <<>>, members |-> <<>>, fields |-> [x \in {} |-> 0],
         infields |-> <<AD("a", S), ADD("n", I, IntV(7)), AD("l", ListOf(S))>> ],
@@ -104,7 +105,7 @@ UData ==
              need2 |-> V("echo", 0),
              bad   |-> ErrV("bad fails"),
              echo  |-> V("echo", 0),
-             need  |-> V("echo", 0), obj |-> V("echo", 0),
+             need  |-> V("echo", 0), obj |-> V("echo", 0), ids |-> V("echo", 0),
              pv |-> NodeV("p1"), pp |-> NodeV("p1"), ps |-> ListV(<<NodeV("p1"), NodeV("b1"), NodeV("p1")>>) ],
     m  |-> [ set |-> V("echo", 0), a |-> NodeV("a2") ],
     a1 |-> [ name |-> StrV("a1"), n |-> IntV(1), peer |-> NodeV("b1"), self |-> NodeV("a1"),
